@@ -929,6 +929,71 @@ var thoroughOnlyForms = map[string]bool{
 	"namefbitem": true, "namefb2func": true,
 }
 
+// CALL POSITIONS of a macro whose body holds the failing construct (C17-K): the same macro body — the
+// expression hole, an include of a template, a call of a sibling macro — and the call written directly in a
+// print tag (the `macro…` positions above), as the VALUE OF A SET TAG (the variable printed later, printed in a
+// loop, used in a later expression, or never used), and INSIDE AN EXPRESSION (concatenation operand, base of a
+// filter, argument of a filter), the macro coming from the same template (bare and through _self), from
+// `import … as` and from `from … import`. Flat programs only (not nested); the quick tier uses the value forms of
+// the depth-2 corpus. A call whose text is never produced on the engine under test (the fault-free run does not
+// invoke the sites of the body) gets no fault injected: whether a value that is never used must be computed is
+// not determined by the statement — but once the body runs, its failure must reach the caller.
+const callBody = "{% macro mm(" + mp + ") %}[{{ <E> }}]{% endmacro %}"
+
+var callPositions = []position{
+	{name: "callsetself", group: "macrocall", hole: 'E', tpls: map[string]string{
+		"top": callBody + "{% set v = $mm$(" + mp + ") %}<{{ v }}>"}},
+	{name: "callsetselfunused", group: "macrocall", hole: 'E', tpls: map[string]string{
+		"top": callBody + "{% set v = $mm$(" + mp + ") %}k"}},
+	{name: "callsetselfdot", group: "macrocall", hole: 'E', tpls: map[string]string{
+		"top": callBody + "{% set v = _self.$mm$(" + mp + ") %}<{{ v }}>"}},
+	{name: "callsetselfdotunused", group: "macrocall", hole: 'E', tpls: map[string]string{
+		"top": callBody + "{% set v = _self.$mm$(" + mp + ") %}k"}},
+	{name: "callsetimport", group: "macrocall", hole: 'E', tpls: map[string]string{
+		"lib": callBody, "top": "{% import '#lib#' as l %}{% set v = l.$mm$(" + mp + ") %}<{{ v }}>"}},
+	{name: "callsetimportunused", group: "macrocall", hole: 'E', tpls: map[string]string{
+		"lib": callBody, "top": "{% import '#lib#' as l %}{% set v = l.$mm$(" + mp + ") %}k"}},
+	{name: "callsetfrom", group: "macrocall", hole: 'E', tpls: map[string]string{
+		"lib": callBody, "top": "{% from '#lib#' import $mm$ as q %}{% set v = q(" + mp + ") %}<{{ v }}>"}},
+	{name: "callsetfromunused", group: "macrocall", hole: 'E', tpls: map[string]string{
+		"lib": callBody, "top": "{% from '#lib#' import $mm$ as q %}{% set v = q(" + mp + ") %}k"}},
+	{name: "callsetloop", group: "macrocall", hole: 'E', tpls: map[string]string{
+		"lib": callBody, "top": "{% import '#lib#' as l %}{% for i in [1, 2] %}{% set v = l.$mm$(" + mp + ") %}{{ v }}{% endfor %}d"}},
+	{name: "callsetlater", group: "macrocall", hole: 'E', tpls: map[string]string{
+		"lib": callBody, "top": "{% import '#lib#' as l %}{% set v = l.$mm$(" + mp + ") %}{% if x %}<{{ v }}>{% endif %}"}},
+	{name: "callsetinclude", group: "macrocall", hole: 'E', tpls: map[string]string{
+		"part": "({{ <E> }})",
+		"top":  "{% macro mm(" + mp + ") %}[{% include '#part#' %}]{% endmacro %}{% set v = $mm$(" + mp + ") %}<{{ v }}>"}},
+	{name: "callsetincludeunused", group: "macrocall", hole: 'E', tpls: map[string]string{
+		"part": "({{ <E> }})",
+		"lib":  "{% macro mm(" + mp + ") %}[{% include '#part#' %}]{% endmacro %}",
+		"top":  "{% import '#lib#' as l %}{% set v = l.$mm$(" + mp + ") %}k"}},
+	{name: "callsetsibling", group: "macrocall", hole: 'E', tpls: map[string]string{
+		"lib": "{% macro inner(" + mp + ") %}({{ <E> }}){% endmacro %}{% macro mm(" + mp + ") %}[{{ $inner$(" + mp + ") }}]{% endmacro %}",
+		"top": "{% import '#lib#' as l %}{% set v = l.$mm$(" + mp + ") %}<{{ v }}>"}},
+	{name: "callsetimportinner", group: "macrocall", hole: 'E', tpls: map[string]string{
+		"lib2": callBody,
+		"lib":  "{% macro oo(" + mp + ") %}{% import '#lib2#' as k %}{% set w = k.$mm$(" + mp + ") %}({{ w }}){% endmacro %}",
+		"top":  "{% from '#lib#' import $oo$ %}{% set v = oo(" + mp + ") %}<{{ v }}>"}},
+	// not generated: a macro call as a concatenation operand or as the base of a filter (`'a' ~ l.mm(…)`,
+	// `mm(…)|upper`) — the engine prints the address of the deferred call there, the body never runs (a matter of
+	// the output properties, and the text would differ from build to build)
+	{name: "callfilterarg", group: "macrocall", hole: 'E', tpls: map[string]string{
+		"top": callBody + "{{ undefinedvar|default(_self.$mm$(" + mp + ")) }}"}},
+}
+
+func callPrograms(thorough bool) []*program {
+	var ps []*program
+	for i := range callPositions {
+		for _, f := range exprForms {
+			if thorough && !thoroughOnlyForms[f.name] || nestedExprForms[f.name] {
+				ps = append(ps, newProgram(&callPositions[i], f))
+			}
+		}
+	}
+	return ps
+}
+
 func allPrograms(thorough bool) []*program {
 	var ps []*program
 	for i := range positions {
@@ -953,6 +1018,7 @@ func allPrograms(thorough bool) []*program {
 			ps = append(ps, newProgram(p, form{"-", ""}))
 		}
 	}
+	ps = append(ps, callPrograms(thorough)...)
 	kept := ps[:0]
 	for _, p := range ps {
 		if !skipCombos[p.id] {
@@ -1637,6 +1703,8 @@ func main() {
 			"Positions of group `unused`: a from-import / import statement on the rendered path whose names are never called afterwards (alone, beside used names, " +
 			"aliased, called only in unreached code, inside loops / includes / blocks / parents / macro bodies / library top-level code): the imported macro name / the " +
 			"library template is replaced by an unresolvable one and the render must fail although nothing uses the name. " +
+			"Positions of group `macrocall`: the failing construct stands in a macro body and the call is the value of a set tag (variable printed, printed in a loop, " +
+			"never used) or a filter argument, the macro coming from the same template, _self, import and from-import. " +
 			"Non-trivial = the armed invocation really happened (or the renamed site is reached in the fault-free run)",
 		Assumptions: []string{
 			"positions and expression forms outside the listed corpus are not explored; at most two failures per render",
